@@ -35,15 +35,17 @@ Qed.
 Lemma block_count N q : 0 < N -> 0 <= q ->
   length (filter (newPage N) (map (fun x => N * q + x) (zrange N))) = if q =? 0 then 0%nat else 1%nat.
 Proof.
-  intros HN Hq. replace N with (1 + (N - 1)) at 3 by lia. rewrite zrange_app by lia.
-  change (zrange 1) with [0]. cbn [app map filter]. rewrite Z.add_0_r.
+  intros HN Hq.
+  assert (Hz : zrange N = 0 :: map (fun x => 1 + x) (zrange (N - 1))).
+  { replace N with (1 + (N - 1)) at 1 by lia. rewrite zrange_app by lia. reflexivity. }
+  rewrite Hz. cbn [app map filter]. rewrite Z.add_0_r.
   rewrite (filter_none _ (newPage N) (map _ (map _ _))).
   - unfold newPage. replace (Z.rem (N * q) N) with 0 by (rewrite <- (Z.add_0_r (N * q)), rem_block; lia).
     destruct (Z.eqb_spec q 0) as [->|Hq0].
     + rewrite Z.mul_0_r. reflexivity.
     + destruct (Z.ltb_spec 0 (N * q)); [reflexivity|nia].
   - intros y Hy. apply in_map_iff in Hy. destruct Hy as (x & <- & Hx).
-    apply in_map_iff in Hx. destruct Hx as (z & <- & Hz). apply zrange_in in Hz.
+    apply in_map_iff in Hx. destruct Hx as (z & <- & Hzr). apply zrange_in in Hzr.
     unfold newPage. rewrite rem_block by lia.
     destruct (Z.eqb_spec (1 + z) 0); [lia|]. apply andb_false_r.
 Qed.
